@@ -1161,6 +1161,22 @@ func (fc *FC) defKind(in ssa.Instruction, c cellKey) int {
 	case *ssa.Call:
 		// a call receiving the base pointer and writing through it
 		cm := in.Common()
+		// a cell captured by a closure that stores to it: any call that can run the closure
+		// (a dynamic call, a call handed a function, a call of one of this function's own
+		// closures) may have rewritten the cell
+		if al, ok := c.base.(*ssa.Alloc); ok && capturedAndStored(al) {
+			if _, isBuiltin := cm.Value.(*ssa.Builtin); !isBuiltin {
+				f := cm.StaticCallee()
+				if f == nil || f.Parent() != nil {
+					return 3
+				}
+				for _, a := range cm.Args {
+					if _, isFn := a.Type().Underlying().(*types.Signature); isFn {
+						return 3
+					}
+				}
+			}
+		}
 		for i, a := range cm.Args {
 			if a != c.base {
 				continue
@@ -1818,6 +1834,24 @@ func (fc *FC) reaches(a, b ssa.Instruction) bool {
 			return true
 		}
 		stack = append(stack, fc.Ctx.LiveSuccs(x)...)
+	}
+	return false
+}
+
+// capturedAndStored: the cell is bound into a closure that (transitively) stores to it.
+func capturedAndStored(al *ssa.Alloc) bool {
+	refs := al.Referrers()
+	if refs == nil {
+		return false
+	}
+	for _, ref := range *refs {
+		if mc, ok := ref.(*ssa.MakeClosure); ok {
+			for i, b := range mc.Bindings {
+				if b == al && closureStoresTo(mc.Fn.(*ssa.Function), i) {
+					return true
+				}
+			}
+		}
 	}
 	return false
 }
